@@ -94,8 +94,7 @@ def walreplayOp : Op := fun args =>
       let fstr := files.zip fruns |>.map (fun (f, rs) => showFile (fileLen res.writes (fullPath rootR f.1) f.2) rs)
       let (st, w) := outcomeStr res.outcome
       let isPanic := match res.outcome with | .panic _ => true | _ => false
-      let hy := (if res.cause == "" then [] else [res.cause]) ++ (if res.clobbered then ["tgid0_clobbered"] else []) ++
-        (if res.ckptDropped then ["ckpt_dropped"] else [])
+      let hy := (if res.cause == "" then [] else [res.cause]) ++ (if res.ckptDropped then ["ckpt_dropped"] else [])
       s!"M:st={st} wal={w} f={if fstr.isEmpty then "-" else ",".intercalate fstr} " ++
         verdict isPanic fruns exps ++ "\tS:~P=111\tH:" ++ ",".intercalate hy
     | _, _, _ => badArgs
